@@ -2,7 +2,7 @@ use crate::document::{as_position, DocumentRequest};
 use color_eyre::eyre::Result;
 use lsp_types::{Position, SemanticToken, SemanticTokens, SemanticTokensParams};
 use spl_frontend::{
-    ast::{AstInfo, GlobalDeclaration, ProcedureDeclaration, TypeDeclaration},
+    ast::{AstInfo, GlobalDeclaration, Identifier, ProcedureDeclaration, TypeDeclaration},
     table::{Entry, GlobalTable, LookupTable},
     tokens::{Token, TokenType},
     AnalyzedSource, ToRange,
@@ -100,11 +100,14 @@ fn collect_type_dec(
     tokens: &[Token],
     previous_token_pos: &mut Position,
 ) -> Vec<SemanticToken> {
+    // index of the first token of the declaration, all ranges below are relative to the declaration
+    let first = td.info.to_range().start;
     td.info
         .slice(tokens)
         .iter()
-        .filter_map(|token| {
-            let semantic_token = if matches!(&td.name, Some(name) if name.to_range() == token.range)
+        .enumerate()
+        .filter_map(|(i, token)| {
+            let semantic_token = if matches!(&td.name, Some(name) if is_name_token(name, 0, first + i))
             {
                 Some(create_semantic_token(
                     token,
@@ -143,11 +146,14 @@ fn collect_proc_dec(
         local_table: super::get_local_table(pd, global_table),
         global_table: Some(global_table),
     };
+    // index of the first token of the declaration, all ranges below are relative to the declaration
+    let first = pd.info.to_range().start;
     pd.info
         .slice(tokens)
         .iter()
-        .filter_map(|token| {
-            let semantic_token = if matches!(&pd.name, Some(name) if name.to_range() == token.range)
+        .enumerate()
+        .filter_map(|(i, token)| {
+            let semantic_token = if matches!(&pd.name, Some(name) if is_name_token(name, 0, first + i))
             {
                 Some(create_semantic_token(
                     token,
@@ -173,7 +179,11 @@ fn collect_proc_dec(
                         SemanticTokenModifier::None.into(),
                     ),
                     Entry::Variable(variable) => {
-                        let modifier = if variable.name.to_range() == token.range {
+                        let modifier = if is_name_token(
+                            &variable.name,
+                            variable.to_range().start,
+                            first + i,
+                        ) {
                             SemanticTokenModifier::Declaration
                         } else {
                             SemanticTokenModifier::None
@@ -187,7 +197,7 @@ fn collect_proc_dec(
                         )
                     }
                     Entry::Parameter(param) => {
-                        let modifier = if param.name.to_range() == token.range {
+                        let modifier = if is_name_token(&param.name, param.to_range().start, first + i) {
                             SemanticTokenModifier::Declaration
                         } else {
                             SemanticTokenModifier::None
@@ -210,6 +220,14 @@ fn collect_proc_dec(
             semantic_token
         })
         .collect()
+}
+
+/// True if the token at `token_index` is the given name.
+/// The name's range is relative to `offset` and the name itself is its last token
+/// (which might be preceded by comments).
+fn is_name_token(name: &Identifier, offset: usize, token_index: usize) -> bool {
+    let range = name.to_range();
+    !range.is_empty() && offset + range.end == token_index + 1
 }
 
 fn collect_error(
@@ -267,9 +285,10 @@ fn create_semantic_token(
     token_modifier: u32,
 ) -> SemanticToken {
     let Position { line, character } = as_position(token.range.start, text);
-    let length = token
-        .range
-        .len()
+    // positions and lengths are measured in UTF-16 code units
+    let length = text[token.range.clone()]
+        .encode_utf16()
+        .count()
         .try_into()
         .expect("Cannot convert range length to u32");
     let delta_line = line - previous_token_pos.line;
